@@ -53,6 +53,9 @@ func (t *target) tokFor(hit int64, path string) (string, bool) {
 }
 
 func (t *target) echoList() []string {
+	if t.grpc != nil {
+		return t.grpc.Echoes()
+	}
 	t.mu.Lock()
 	defer t.mu.Unlock()
 	return append([]string(nil), t.echoes...)
@@ -465,7 +468,9 @@ func poolYAML(kind, addr string, kv map[string]string, n int, rps map[string]any
 	case "grpcscen":
 		gun["type"] = "grpc/scenario"
 		ammo["type"] = "grpc/scenario"
-		if kv["steps"] != "" {
+		if kv["isolate"] != "" {
+			ammo["file"] = grpcIsolateScenarioFile()
+		} else if kv["steps"] != "" {
 			ammo["file"] = grpcFaultScenarioFile(kv)
 		} else {
 			ammo["file"] = grpcScenarioFile()
